@@ -62,6 +62,16 @@ func (s Scenario) Name() string {
 	return fmt.Sprintf("%s/old=%s/new=%s/tmp=%s/var=%s", s.Op, s.Old, s.New, s.Tmp, s.Var)
 }
 
+// srvMode is the behaviour of the download server ("" = well-behaved httptest server).
+func (s Scenario) srvMode() string {
+	for _, w := range strings.Split(s.Var, ",") {
+		if strings.HasPrefix(w, "srv=") {
+			return strings.TrimPrefix(w, "srv=")
+		}
+	}
+	return ""
+}
+
 func (s Scenario) has(word string) bool {
 	for _, w := range strings.Split(s.Var, ",") {
 		if w == word {
@@ -77,6 +87,7 @@ type Spec struct {
 	Root   string   `json:"root"`   // fresh scratch directory of this run
 	Other  string   `json:"other"`  // fresh directory on another mount point (tmp=other), or ""
 	URL    string   `json:"url"`    // httptest server of the runner
+	RawURL string   `json:"rawurl"` // raw TCP server of the runner that can misbehave (var word srv=<mode>)
 	Signet string   `json:"signet"` // base58 recipient signet for signature verification
 }
 
@@ -371,10 +382,13 @@ func (t fullBodyTransport) RoundTrip(req *http.Request) (*http.Response, error) 
 
 type fullBody struct{ io.ReadCloser }
 
-func (b *fullBody) Read(p []byte) (int, error) {
-	n, err := io.ReadFull(b.ReadCloser, p)
-	if err == io.ErrUnexpectedEOF {
-		err = io.EOF
+// Read fills p completely unless the body ends or fails; the error of the
+// body (io.EOF, io.ErrUnexpectedEOF of a cut response, ...) is passed on unchanged.
+func (b *fullBody) Read(p []byte) (n int, err error) {
+	for n < len(p) && err == nil {
+		var m int
+		m, err = b.ReadCloser.Read(p[n:])
+		n += m
 	}
 	return n, err
 }
@@ -439,6 +453,9 @@ func driverMain(specFile string) int {
 		}
 	case opFetch, opUnpackZip, opUnpackFile:
 		reg := &updater.ResourceRegistry{Name: "c17", UpdateURLs: []string{sp.URL}, Online: true}
+		if m := sc.srvMode(); m != "" {
+			reg.UpdateURLs = []string{sp.RawURL + "/mode/" + m}
+		}
 		if sc.has("signed") {
 			rcpt, err := jess.SignetFromBase58(sp.Signet)
 			if err != nil {
